@@ -4,6 +4,8 @@ scripted scheduler; between polls (in the stubbed `sleep`) the harness inspects
 what the conductor left on disk (snapshot pickle, status.csv, cancel lock) and
 scripts the next scheduler answer.  Used by C18 (snapshot = status), C07 (cancel
 through the lock file), C12 (rows) and C05 (returned status)."""
+import contextlib
+import io
 import os
 
 import execsim as E
@@ -15,7 +17,99 @@ class Stop(Exception):
     pass
 
 
-def run(ctx, rng, k, cancel_prob=0.0, max_polls=40, local_prob=0.0):
+EXIT = {"FINISHED": 0, "RUNNING": 1, "FAILURE": 2, "CANCELLED": 3}
+
+
+def _enter(entry, spec, root, opts, on_init, captured):
+    """Runs the study through one of Maestro's real entry points and returns
+    (status name returned by monitor_study, process exit code or None):
+      direct - Conductor(study).initialize / monitor_study (no process exit code)
+      fg     - maestrowf.maestro.main() with `run -fg`
+      bg     - maestrowf.maestro.main() with `run` (the nohup launch is captured instead of
+               started), then maestrowf.conductor.main() with the captured command line."""
+    import logging
+    import shlex
+    import sys
+    import yaml
+    import maestrowf.conductor as cmod
+    import maestrowf.maestro as mmod
+    from maestrowf.conductor import Conductor
+    orig_init, orig_mon = Conductor.initialize, Conductor.monitor_study
+
+    def init(self, *a, **kw):
+        r = orig_init(self, *a, **kw)
+        on_init(self)
+        return r
+
+    def mon(self):
+        r = orig_mon(self)
+        captured["returned"] = r.name
+        return r
+
+    Conductor.initialize, Conductor.monitor_study = init, mon
+    root_logger = logging.getLogger()
+    handlers = list(root_logger.handlers)
+    argv, code = sys.argv, None
+    launched = []
+    saved_sp = mmod.start_process
+    mmod.start_process = lambda cmd, *a, **kw: launched.append(cmd)
+    try:
+        if entry == "direct":
+            _y, study = SS.load_study(spec, root, **opts)
+            c = Conductor(study)
+            c.initialize({"type": "scripted"}, 0)
+            try:
+                c.monitor_study()
+            finally:
+                c.cleanup()
+            return captured.get("returned"), None
+        doc = dict(spec)
+        doc["batch"] = {"type": "scripted", "host": "h", "bank": "b", "queue": "q"}
+        os.makedirs(os.path.dirname(root), exist_ok=True)
+        path = root + ".yaml"
+        with open(path, "w") as f:
+            yaml.safe_dump(doc, f, sort_keys=False)
+        args = ["maestro", "run", "-y", "-s", "1", "-o", root, "-r", str(opts["rlimit"]),
+                "-t", str(opts["throttle"]), "-a", str(opts["attempts"])]
+        if opts["hash_ws"]:
+            args.append("--hashws")
+        if entry == "fg":
+            args.append("-fg")
+        sys.argv = args + [path]
+        try:
+            with contextlib.redirect_stdout(io.StringIO()):
+                mmod.main()
+        except SystemExit as e:
+            code = e.code
+        if entry == "fg":
+            return captured.get("returned"), code
+        if code != 0 or len(launched) != 1:
+            return "LAUNCH:%r:%d" % (code, len(launched)), code
+        words = shlex.split(launched[0].split(">")[0])
+        if words[:2] != ["nohup", "conductor"]:
+            return "LAUNCH:%s" % words[:2], code
+        sys.argv = words[1:]
+        code = None
+        try:
+            with contextlib.redirect_stdout(io.StringIO()):
+                cmod.main()
+        except SystemExit as e:
+            code = e.code
+        return captured.get("returned"), code
+    finally:
+        sys.argv = argv
+        mmod.start_process = saved_sp
+        Conductor.initialize, Conductor.monitor_study = orig_init, orig_mon
+        for h in list(root_logger.handlers):
+            if h not in handlers:
+                root_logger.removeHandler(h)
+                try:
+                    h.close()
+                except Exception:  # noqa
+                    pass
+
+
+def run(ctx, rng, k, cancel_prob=0.0, max_polls=40, local_prob=0.0, entry="direct"):
     """returns dict(mon={prop: [...]}, polls=.., ret=.., spec=.., nontrivial=..)"""
     import maestrowf.conductor as cmod
     from maestrowf.conductor import Conductor
@@ -26,33 +120,34 @@ def run(ctx, rng, k, cancel_prob=0.0, max_polls=40, local_prob=0.0):
         for key in ("nodes", "procs", "walltime"):
             s["run"].pop(key, None)
     S.install()
-    try:
-        _y, study = SS.load_study(spec, root, hash_ws=rng.random() < 0.3, rlimit=rng.choice([0, 1, 2]),
-                                  throttle=rng.choice([0, 0, 1, 2, 3]), attempts=rng.choice([1, 2]))
-    except Exception:  # noqa
-        return None
-    c = Conductor(study)
-    try:
-        c.initialize({"type": "scripted"}, 0)
-    except Exception:  # noqa  (staging errors are not this scenario's subject)
-        return None
-    dag = c._exec_dag
-    names = [x for x in dag.values if x != "_source"]
+    opts = dict(hash_ws=rng.random() < 0.3, rlimit=rng.choice([0, 1, 2]),
+                throttle=rng.choice([0, 0, 1, 2, 3]), attempts=rng.choice([1, 2]))
     all_local = rng.random() < local_prob      # nothing is ever in flight between polls
-    S.WORLD.reset(subs=[0 if rng.random() < 0.08 else 1 for _ in range(60)],
-                  sched={nm: (not all_local) and rng.random() < 0.85 for nm in names})
-    S.WORLD.poll_code = "OK"
-    S.WORLD.poll_reports = []
+    world_seed = rng.getrandbits(32)
+    env = {}
+
+    def on_init(c):
+        import random
+        r2 = random.Random(world_seed)
+        dag_ = c._exec_dag
+        env["dag"] = dag_
+        env["names"] = [x for x in dag_.values if x != "_source"]
+        env["study_name"] = c._study.name
+        S.WORLD.reset(subs=[0 if r2.random() < 0.08 else 1 for _ in range(60)],
+                      sched={nm: (not all_local) and r2.random() < 0.85 for nm in env["names"]})
+        S.WORLD.poll_code = "OK"
+        S.WORLD.poll_reports = []
+        par = {nm: [] for nm in env["names"]}
+        for src, dsts in dag_.adjacency_table.items():
+            for d in dsts:
+                if src != "_source" and d in par:
+                    par[d].append(src)
+        env["parents"] = par
     mon = {"C18": [], "C07": [], "C12": [], "C05": [], "C01": []}
     st = {"polls": 0, "cancel_at": None, "nontrivial": False, "cancel_calls": 0, "seen_events": 0}
     # C01 at the level of the staged study: the parents of an instance are read
     # from the execution graph's adjacency table (what `maestro status` and the
     # failure propagation use), not from the gating sets the launcher consults
-    parents = {nm: [] for nm in names}
-    for src, dsts in dag.adjacency_table.items():
-        for d in dsts:
-            if src != "_source" and d in parents:
-                parents[d].append(src)
     succeeded = set()
     rounds = {}
 
@@ -65,7 +160,7 @@ def run(ctx, rng, k, cancel_prob=0.0, max_polls=40, local_prob=0.0):
         evs = S.WORLD.all_events
         for ev in evs[st["seen_events"]:]:
             if ev[0] in ("submit", "local") and ev[2] == "main":
-                missing = [p_ for p_ in parents.get(ev[1], []) if p_ not in succeeded]
+                missing = [p_ for p_ in env["parents"].get(ev[1], []) if p_ not in succeeded]
                 if missing:
                     mon["C01"].append(("launch-after-deps",
                                        "study-level: %s launched at poll %d while its parents %s had not succeeded"
@@ -73,13 +168,14 @@ def run(ctx, rng, k, cancel_prob=0.0, max_polls=40, local_prob=0.0):
             if ev[0] == "local" and ev[3] == "ok":
                 succeeded.add(ev[1])
         st["seen_events"] = len(evs)
-    pkl = os.path.join(root, "%s.pkl" % study.name)
     lock = os.path.join(root, ".cancel.lock")
     fair_from = rng.randint(2, 12)
 
     def hook(_t):
         st["polls"] += 1
         k_ = st["polls"]
+        dag, names = env["dag"], env["names"]
+        pkl = os.path.join(root, "%s.pkl" % env["study_name"])
         c01_scan()
         # ---- what the conductor left on disk after this poll
         try:
@@ -140,17 +236,24 @@ def run(ctx, rng, k, cancel_prob=0.0, max_polls=40, local_prob=0.0):
 
     saved = cmod.sleep
     cmod.sleep = hook
+    captured = {}
+    code = None
     try:
         try:
-            ret = c.monitor_study().name
+            ret, code = _enter(entry, spec, root, opts, on_init, captured)
         except Stop:
             ret = "NONTERMINATION"
         except RuntimeError:
             ret = "RAISE:RuntimeError"
-        finally:
-            c.cleanup()
+        except Exception:  # noqa  (staging errors are not this scenario's subject)
+            if "dag" not in env:
+                return None
+            raise
     finally:
         cmod.sleep = saved
+    if "dag" not in env or ret is None:
+        return None
+    dag, names = env["dag"], env["names"]
     # ---- after the conductor returned
     c01_scan()
     if st["cancel_at"] is not None and ret not in ("NONTERMINATION",):
@@ -166,7 +269,25 @@ def run(ctx, rng, k, cancel_prob=0.0, max_polls=40, local_prob=0.0):
     states = {nm: dag.values[nm].status.name for nm in names}
     if ret == "FINISHED" and any(v != "FINISHED" for v in states.values()):
         mon["C05"].append(("verdict-truthful", "returned FINISHED with states %s" % states))
+    if ret in EXIT:
+        # the verdict the final table prescribes
+        if st["cancel_at"] is not None or any(v == "CANCELLED" for v in states.values()):
+            want = "CANCELLED"
+        elif all(v == "FINISHED" for v in states.values()):
+            want = "FINISHED"
+        else:
+            want = "FAILURE"
+        if ret != want:
+            mon["C05"].append(("verdict-truthful", "the conductor returned %s; the final states %s (cancel "
+                               "requested: %s) prescribe %s" % (ret, states, st["cancel_at"] is not None, want)))
+        if entry != "direct" and code != EXIT[want]:
+            mon["C05"].append(("exit-code-truthful", "`%s` exited with %r; the final states %s (cancel requested: "
+                               "%s) prescribe %s/%d; monitor_study returned %s"
+                               % ("maestro run -fg" if entry == "fg" else "conductor", code, states,
+                                  st["cancel_at"] is not None, want, EXIT[want], ret)))
+    elif entry != "direct" and str(ret).startswith("LAUNCH"):
+        mon["C05"].append(("exit-code-truthful", "`maestro run` did not launch the conductor: %s" % ret))
     if ret == "NONTERMINATION":
         mon["C05"].append(("terminates", "monitor_study did not return within %d polls of a fair tail" % max_polls))
     return {"mon": mon, "polls": st["polls"], "ret": ret, "spec": spec, "nontrivial": st["nontrivial"],
-            "cancelled": st["cancel_at"]}
+            "cancelled": st["cancel_at"], "entry": entry, "exit": code, "options": opts}
